@@ -336,7 +336,7 @@ func isRefType(t types.Type) bool {
 // readFacts: facts assumed for a value read from the heap or received from outside.
 func (c *FnCtx) readFacts(st *State, t Term) {
 	st.assume(c.typeFacts(t))
-	if c.e.typedRefs && t.T != nil && t.Sort.Kind == KV {
+	if c.typedRefs() && t.T != nil && t.Sort.Kind == KV {
 		if tag, ok := c.refTag(t.T); ok {
 			// Go's static typing: a non-nil value of pointer / map type refers to an object of exactly that type
 			st.assume(sOr(sEq(t.S, "nilV"), sEq(sApp("dyntype", t.S), tag)))
